@@ -1,5 +1,5 @@
 (* One entry point for the harness: request (list Z) -> reply (list Z). *)
-From JP Require Import Base.Json Extract.Wire Extract.WireAst Model.Slice Spec.Slice Model.Ast Model.Eval Spec.Sem Spec.Compare Model.Tokens Model.Lex Model.PyFloat Model.Parse Model.Api Spec.Rfc9535Grammar Spec.Types Spec.StringLit Model.Position Spec.Position Model.Serialize Spec.NormPath Model.History Model.Descent Model.NdVisit Spec.Nondet.
+From JP Require Import Base.Json Extract.Wire Extract.WireAst Model.Slice Spec.Slice Model.Ast Model.Eval Spec.Sem Spec.Compare Model.Tokens Model.Lex Model.PyFloat Model.Parse Model.Api Spec.Rfc9535Grammar Spec.Types Spec.StringLit Model.Position Spec.Position Model.Serialize Spec.NormPath Model.History Model.Descent Model.NdVisit Spec.Nondet Spec.IRegexp Model.MapRe.
 
 Definition iota_json (len : Z) : list json := map (fun k => JNum (NInt (Z.of_nat k))) (seq 0 (Z.to_nat len)).
 Definition enc_sel (r : list (Z * json)) : list Z := enc_list (fun p => fst p :: enc_json (snd p)) r.
@@ -202,6 +202,19 @@ Definition op_all_orders (r : list Z) : list Z :=
   match dec_json r with Some (v, _) => enc_list (enc_list (fun n => enc_loc (fst n))) (all_orders ([], v))
   | None => bad_request end.
 
+(* [15; pattern] -> map_re(pattern) *)
+Definition op_map_re (r : list Z) : list Z :=
+  match dec_str r with Some (p, _) => enc_str (m_map_re p) | None => bad_request end.
+(* [114; search?; category table (code point, category)...; subject; pattern] -> 0 undecided / 1 false / 2 true *)
+Fixpoint gc_lookup (t : list (N * str)) (c : N) : str :=
+  match t with [] => [] | (c', g) :: r => if N.eqb c c' then g else gc_lookup r c end.
+Definition op_iregexp (r : list Z) : list Z :=
+  match dec_bool r with Some (sr, r0) =>
+  match dec_list (dec_pair dec_cp dec_str) r0 with Some (t, r1) =>
+  match dec_str r1 with Some (subj, r2) =>
+  match dec_str r2 with Some (pat, _) => [if sr then i_search (gc_lookup t) subj pat else i_match (gc_lookup t) subj pat]
+  | None => bad_request end | None => bad_request end | None => bad_request end | None => bad_request end.
+
 (* opcodes: model side 1..99, specification side 101..199 *)
 Definition dispatch (req : list Z) : list Z :=
   match req with
@@ -215,6 +228,7 @@ Definition dispatch (req : list Z) : list Z :=
   | 10 :: r => op_nd_visit r
   | 11 :: r => op_graph r
   | 12 :: r => op_history r
+  | 15 :: r => op_map_re r
   | 19 :: r => op_errpos r
   | 20 :: r => op_float r
   | 103 :: r => op_sem r
@@ -222,6 +236,7 @@ Definition dispatch (req : list Z) : list Z :=
   | 106 :: r => op_cmp r
   | 109 :: r => op_valid r
   | 110 :: r => op_strlit r
+  | 114 :: r => op_iregexp r
   | 116 :: r => op_valid_order r
   | 117 :: r => op_all_orders r
   | 118 :: r => op_norm_path r
